@@ -16,12 +16,18 @@ def build(seed):
     for i, n in enumerate(names):
         d = rnd.choice([""] + dirs)
         files[(d + "/" if d else "") + n] = f"unique content #{i} of {n}"
+    if rnd.random() < 0.5:
+        # exactly one empty file: its content is distinct from all others as well
+        files[rnd.choice(["", dirs[0] + "/"]) + "empty.dat"] = ""
     tree = {d + "/": None for d in dirs}
     tree.update(files)
     fm1 = gen.fmt_subset(rnd, (1, 2))
     ops = [{"op": "create", "at": "", "h": fm1, "now": "2026-03-01 12:00:00"}]
     if rnd.random() < 0.3:
         ops.append({"op": "create", "at": "", "h": gen.fmt_subset(rnd, (1, 2)), "now": "2026-03-01 12:00:01"})
+    if rnd.random() < 0.35:
+        # the generation before the renames covers only part of the tree
+        ops.append({"op": "create", "at": "", "h": gen.fmt_subset(rnd, (1, 2)), "sf": [rnd.choice(sorted(files))], "now": "2026-03-01 12:00:01"})
     cur = dict(files)
     steps = rnd.choice([1, 1, 2, 3])
     meta = {"steps": []}
